@@ -390,7 +390,10 @@ class BlockDiagonalizer:
         # Perform water-filling for the parallel channel gains in Sigma
         # (but considering a global power constraint, each element (power)
         # in Sigma comes from all APs)
-        total_power = self.num_users * self.iPu
+        # Note: float() because `iPu` may be a numpy scalar of a narrow type
+        # (np.int8, np.float16, ...), whose product / square root would be
+        # computed (and overflow or be rounded) in that narrow type.
+        total_power = self.num_users * float(self.iPu)
         vtOptP = waterfilling.doWF(Sigma**2, total_power, self.noise_var)[0]
         # print "Darlan"
         # print vtOptP
@@ -459,7 +462,7 @@ class BlockDiagonalizer:
 
         # Normalize the power of the AP with highest transmitted power to
         # be equal to self.iPu
-        Ms_good = Ms_good * np.sqrt(self.iPu) / max_sqrt_P
+        Ms_good = Ms_good * np.sqrt(float(self.iPu)) / max_sqrt_P
 
         return Ms_good
 
@@ -553,7 +556,7 @@ class BlockDiagonalizer:
             # The power is actually the square of cur_sqrt_P
             cur_sqrt_P = np.linalg.norm(user_matrix, 'fro')
             Ms_good[:, user * iNtU:user * iNtU +
-                    iNtU] = (user_matrix * np.sqrt(self.iPu) / cur_sqrt_P)
+                    iNtU] = (user_matrix * np.sqrt(float(self.iPu)) / cur_sqrt_P)
 
         # Ms_good = self._perform_normalized_power_scaling(Ms_bad,
         #                                                  Sigma)
@@ -1272,7 +1275,7 @@ class EnhancedBD(BDWithExtIntBase):
                 Pk = _calc_stream_reduction_matrix(Re_k, num_streams)
 
             norm_term = (np.linalg.norm(np.dot(Msk, Pk), 'fro') /
-                         np.sqrt(self.iPu))
+                         np.sqrt(float(self.iPu)))
             # Equivalent channel with stream reduction
             Heq_k_red = np.dot(Heq_k, Pk / norm_term)
 
@@ -1375,7 +1378,7 @@ class EnhancedBD(BDWithExtIntBase):
                 # Normalization term for the combined BD matrix Msk and stream
                 # reduction matrix Pk
                 norm_term = (np.linalg.norm(np.dot(Msk, Pk), 'fro') /
-                             np.sqrt(self.iPu))
+                             np.sqrt(float(self.iPu)))
                 norm_term_all[index] = norm_term  # Save for later
 
                 # Equivalent channel with stream reduction
